@@ -315,6 +315,7 @@ def run(rep, tier, seed):
                 d = deepdiff.first_diff(obn["doc"], ov["doc"])
                 if d:
                     rep.violation("C09:%s:document-differs:%s" % (name, d[0]), "at %s: original %r, rewritten %r" % (d[0], d[1], d[2]), vcase)
+    alias_pass(rep, rng, quick)
     rep.sample({"original": groups[0][1][:700], "rewritten": groups[0][2][2][1][:900], "renaming": dict(list(groups[0][2][2][2].items())[:8])})
     rep.rule = ("generated models (30% with an injected semantic error) re-rendered with redundant parentheses around "
                 "operands, blanks / newlines / comments / line continuations between tokens and the other spelling of "
@@ -323,6 +324,66 @@ def run(rep, tier, seed):
                 "renaming applied, supported methods and the whole canonical document compared; distinct = distinct "
                 "rewritten texts")
     rep.extra["models_with_diagnostics"] = n_rej
+
+
+ALIAS = {"and": "&&", "or": "||", "not": "!"}
+UNALIAS = {v: k for k, v in ALIAS.items()}
+
+
+def alias_pass(rep, rng, quick):
+    """Rewrite family 3 at token level: the same expression with every keyword alias (and, or, not) and with every
+    symbolic form (&&, ||, !), nothing else changed; parsed and type checked in the scope of a fixed prelude.  The
+    expressions mix the aliases with xor / imply / ?: / comparison operators of neighbouring precedence levels."""
+    from .. import exprlab, xmlgen
+    model = xmlgen.simple_model(decl=G.PRELUDE)
+    tg = G.TypedGen(rng)
+    ug = G.Gen(rng)
+    texts = []
+    n = 2500 if quick else 40000
+    for i in range(n):
+        x = rng.random()
+        if x < 0.55:
+            t = tg.bool(rng.choice([2, 3, 3, 4]))
+        elif x < 0.7:
+            t = tg.int(rng.choice([2, 3]))
+        else:
+            # chains over the boolean connectives only: these are where the spellings meet
+            atoms = [("id", rng.choice(["b", "c"])), ("bin", "LT", ("id", "i"), ("id", "j")), ("bool", 1), ("un", "NOT", ("id", "b"))]
+            t = rng.choice(atoms)
+            for _ in range(rng.randint(2, 5)):
+                k = rng.choice(["AND", "OR", "OR", "XOR", "imply", "imply", "NOT"])
+                o = rng.choice(atoms)
+                if k == "imply":
+                    t = ("imply", t, o) if rng.random() < 0.5 else ("imply", o, t)
+                elif k == "NOT":
+                    t = ("un", "NOT", t)
+                else:
+                    t = ("bin", k, t, o) if rng.random() < 0.5 else ("bin", k, o, t)
+        texts.append(G.render_min(t, rng))
+    sym, kw = [], []
+    for txt in texts:
+        toks = [tk.text for tk in lexer.tokenize(txt)]
+        sym.append(" ".join(ALIAS.get(tk, tk) for tk in toks))
+        kw.append(" ".join(UNALIAS.get(tk, tk) for tk in toks))
+    rs = exprlab.run_exprs(sym, model, flags="t", batch=60, tag="as")
+    rk = exprlab.run_exprs(kw, model, flags="t", batch=60, tag="ak")
+    swapped = 0
+    for a, b, (ra, ca, xa), (rb, cb, xb) in zip(sym, kw, rs, rk):
+        if a == b:
+            rep.observe(None)
+            continue
+        swapped += 1
+        vcase = Case("replay", [ca.steps[0], Step("exprs", 0, "global", 1, "S_EXPRESSION", "t", a, b)])
+        if xa is not None or xb is not None:
+            rep.crash(xa or xb, vcase)
+            continue
+        oa = (ra.get("exc"), ra.get("nerr"), ra.get("nerr_tc"), ra.get("err0"), ra.get("dump"), ra.get("tdump"))
+        ob = (rb.get("exc"), rb.get("nerr"), rb.get("nerr_tc"), rb.get("err0"), rb.get("dump"), rb.get("tdump"))
+        rep.observe(("alias", a))
+        if oa != ob:
+            which = "tree" if oa[4] != ob[4] else ("typed-tree" if oa[5] != ob[5] else "diagnostics")
+            rep.violation("C09:aliases:%s-differs" % which, "%r gives %s, its keyword spelling %r gives %s" % (a, oa[1:], b, ob[1:]), vcase)
+    rep.extra["alias_swapped_expressions"] = swapped
 
 
 def replay(data):
